@@ -237,7 +237,7 @@ def run(ck, only=None):
         d = os.path.join(wd, "rc", f"{hn}_{v}_{ed}")
         os.makedirs(d, exist_ok=True)
         p = os.path.join(d, "b.rs")
-        pre = "#![allow(warnings)]\n" + ("#![no_std]\n" if "--use-core" in HEADERS[hn][1] and hn in ("core", "corestr") else "")
+        pre = "#![allow(warnings)]\n" + ("#![no_std]\n" if "--use-core" in HEADERS[hn][1] and hn in ("core", "corestr") and v >= 64 else "")  # before 1.64 there are no core::ffi C types: bindgen falls back to std::os::raw
         open(p, "w").write(pre + res[f"{hn}|{v}|{ed}"]["text"])
         ok, err = common.rustc_meta(p, edition=eff)
         return k, ok, err
